@@ -70,6 +70,16 @@ CHECKS = {
              "Laws on the spec: global reaches the module, nonlocal passes over classes and picks the nearest let / function "
              "/ module binding, exactly one binding changes.",
         note="Unspecified: nonlocal at module level, declaring a name bound by the declaring let itself."),
+    "C08": dict(
+        engine="match", level="model_checking", design="5.1, 6/C08",
+        technique="HyMatch is Python's match semantics (PEP 634) in TLA+; TLC evaluates it on every small program and on "
+                  "generated deep ones and exports case / bindings / outcome; each program is run by CPython as a match "
+                  "statement (validating the spec) and by Hy as a match form at module level and in a function",
+        text="Patterns: literal, capture, wildcard, value, sequences with #*, mappings with #**, class patterns (positional "
+             "via __match_args__, keyword, builtin classes), |, :as; guards (plain and statement-producing, also using bound "
+             "names); 1-3 cases; subjects generated to match.  Laws: irrefutable patterns match, a match binds exactly the "
+             "pattern's names, strings are not sequences.",
+        note="Outcome classes: case taken + bindings, no match (None), TypeError at run time, SyntaxError at compile time."),
     "C09": dict(
         engine="core", level="model_checking", design="5.1, 6/C09",
         technique="fault enumeration at every effect call of try/with programs, trace-validated and explored by TLC "
